@@ -577,6 +577,56 @@ class Engine:
             if self.wall_s is not None and time.time() - self.t0 > self.wall_s:
                 raise BudgetExceeded("wall")
 
+    def diverse_models(self, pc, k=3, timeout_ms=3000):
+        """up to k models of pc that differ from one another in as many input variables (consts named in!...) as a few
+        greedy queries can arrange - used only to complete paths the models could not finish with concrete runs"""
+        s = self._mk_solver()
+        s.set("timeout", timeout_ms)
+        s.add(*pc)
+        if str(s.check()) != "sat":
+            return []
+        out = [s.model()]
+        seen, vars_, todo = set(), [], list(pc)
+        while todo:
+            t = todo.pop()
+            tid = t.get_id()
+            if tid in seen:
+                continue
+            seen.add(tid)
+            if z3.is_const(t) and t.decl().kind() == z3.Z3_OP_UNINTERPRETED:
+                if t.decl().name().startswith("in!"):
+                    vars_.append(t)
+                continue
+            todo.extend(t.children())
+            if len(seen) > 200000:
+                break
+        for _ in range(1, k):
+            depth = 0
+            for m in out:
+                stack = [[v != m.eval(v, model_completion=True) for v in vars_]]
+                budget = 10
+                while stack and budget > 0:
+                    cs = stack.pop()
+                    budget -= 1
+                    if not cs:
+                        continue
+                    s.push()
+                    s.add(*cs)
+                    if str(s.check()) == "sat":
+                        depth += 1
+                        continue
+                    s.pop()
+                    if len(cs) > 1:
+                        mid = len(cs) // 2
+                        stack += [cs[mid:], cs[:mid]]
+            got = s.model() if str(s.check()) == "sat" else None
+            for _i in range(depth):
+                s.pop()
+            if got is None:
+                break
+            out.append(got)
+        return out
+
     def model_for_pc(self, pc=None):
         """A model of the current (or given) path condition."""
         if pc is None and self.model is not None:
